@@ -1092,3 +1092,63 @@ if __name__ == '__main__':
             print(doc_idl(d))
     else:
         sys.stdout.write(schema_txt(sch))
+
+
+# ------------------------------------------------------------------ value tokens -> value (inverse of show)
+
+def parse_value(sch, ty, toks, pos=0):
+    """-> (value, next position)"""
+    t = sch.resolve(ty)
+    k = t[0]
+    tok = toks[pos]
+    if k == 'bool':
+        return tok == 'b1', pos + 1
+    if k in ('i8', 'i16', 'i32', 'i64'):
+        return int(tok[1:]), pos + 1
+    if k == 'double':
+        return (0x7FF8000000000000 if tok == 'dNaN' else int(tok[1:])), pos + 1
+    if k in ('string', 'binary'):
+        return (b'' if tok == 's-' else bytes.fromhex(tok[1:])), pos + 1
+    if k == 'uuid':
+        return bytes.fromhex(tok[1:]), pos + 1
+    if k == 'void':
+        return None, pos + 1
+    if k in ('list', 'set'):
+        n, pos = int(tok[1:]), pos + 1
+        out = []
+        for _ in range(n):
+            x, pos = parse_value(sch, t[1], toks, pos)
+            out.append(x)
+        return out, pos
+    if k == 'map':
+        n, pos = int(tok[1:]), pos + 1
+        out = []
+        for _ in range(n):
+            a, pos = parse_value(sch, t[1], toks, pos)
+            b, pos = parse_value(sch, t[2], toks, pos)
+            out.append((a, b))
+        return out, pos
+    d = sch.types[t[1]]
+    if d['kind'] == 'enum':
+        return int(tok[1:]), pos + 1
+    if d['kind'] == 'struct':
+        n, pos = int(tok[1:]), pos + 1
+        out = {}
+        byid = {f['id']: f for f in d['fields']}
+        for _ in range(n):
+            fid = int(toks[pos][1:])
+            out[fid], pos = parse_value(sch, byid[fid]['ty'], toks, pos + 1)
+        if pos < len(toks) and toks[pos].startswith('X'):
+            out['X'] = bytes.fromhex(toks[pos][1:])
+            pos += 1
+        return out, pos
+    if d['kind'] == 'union':
+        if tok == 'U?':
+            if pos + 1 < len(toks) and toks[pos + 1].startswith('X'):
+                return ('?', bytes.fromhex(toks[pos + 1][1:])), pos + 2
+            return ('?', b''), pos + 1
+        vid = int(tok[1:])
+        var = [x for x in d['variants'] if x['id'] == vid][0]
+        x, pos = parse_value(sch, var['ty'], toks, pos + 1)
+        return (vid, x), pos
+    raise ValueError(ty)
